@@ -42,6 +42,8 @@ FIXED = [
     ("set", 16, "3.9-35.9", "7x16", "e1_i2_e1"),
     ("set", 16, "3.9-3.9", "7x15.e", "e1.f2_e2.f1"),
     ("set", 0, "3.9", "none", "e1_e1_f1"),                        # default-constructed placeholder head
+    ("set", 0, "3.9-3.9-19.5", "none", "e1.f2_i2.f1_e3.e1"),      # first insertions race: different keys, same key
+    ("map", 0, "3.9-19.9", "none", "x1.f2_t2.c1_x2.e1"),
     ("map", 0, "3.9-3.9", "none", "x1_t2.f1"),
     ("map", 16, "3.9-19.9", "7x15.e", "x1.x2_t2.c1_x1"),
     ("set", 32, "0.9", "7x32", "e1_e1_c1"),
@@ -54,6 +56,8 @@ PB = [
     ("fixed", 16, "3.9", "7x14.9.e", "e1_e1"),
     ("fixed", 16, "3.9", "7x14.9.e", "e1_f1"),
     ("fixed", 16, "10.9", "ex10.7x6", "e1_i1"),
+    ("set", 0, "3.9-3.9", "none", "e1.f2_e2.f1"),               # default-constructed: the first insertions of two threads overlap
+    ("map", 0, "3.9-19.9", "none", "x1.c2_t2.e1"),
     ("set", 16, "3.9", "7x16", "e1_e1"),
     ("set", 16, "3.9", "7x16", "e1_f1"),
 ]
@@ -231,7 +235,7 @@ def run(pid, tier, seed, replay=None):
         e2, s2 = record(rcfgs, (seed * 1000 + 1, seed * 1000 + (3 if quick else 5)), "mix", os.path.join(tdir, pid + "_rand"), jobs=4)
         execs += e2
         lap("record")
-        e3, s3 = record([params_str(c) for c in (PB[:3] if quick else PB)], (1, 2), "pb", os.path.join(tdir, pid + "_pb"),
+        e3, s3 = record([params_str(c) for c in (PB[:5] if quick else PB)], (1, 2), "pb", os.path.join(tdir, pid + "_pb"),
                         extra=["--pb-bound", "2" if quick else "3", "--max-execs", "40" if quick else "150"])
         execs += e3
         lap("record_pb")
@@ -267,6 +271,7 @@ def run(pid, tier, seed, replay=None):
                     scripts[i] = r
         followed = 0
         e4 = []
+        replay_drift = []
         for i, (p, _, st) in enumerate(beh):
             ex = got[i]
             # the order of all logged steps except fences (a fence the code no longer executes is judged by trace validation)
@@ -277,6 +282,7 @@ def run(pid, tier, seed, replay=None):
                 s4[ex[-1].get("status", "?")] = s4.get(ex[-1].get("status", "?"), 0) + 1
             else:
                 V.drift += 1
+                replay_drift.append(p)
                 log("SPEC-DRIFT component=swiss_table replay of TLC behaviour not followed: %s" % p)
         lap("tlc_behaviours_replay")
         V.extra["tlc_behaviours_replayed"] = {"generated": len(beh), "followed_exactly": followed, "steps": sum(len(b[1]) for b in beh)}
@@ -284,9 +290,21 @@ def run(pid, tier, seed, replay=None):
         for s in (s2, s3, s4):
             for k, v in s.items():
                 status[k] = status.get(k, 0) + v
+    # the sequential pre-fill must put every filler where the configuration says; if the code under test no longer does
+    # (never on the unchanged tree) the configuration cannot be judged against the model: counted as drift, not used
+    bad_pre = set()
+    ok_execs = []
     for ex in execs:
         if any(e.get("k") == "prefill_bad" for e in ex):
-            raise vlib.Broken("the driver could not pre-fill the configuration %s" % json.dumps(ex[0]["params"]))
+            bad_pre.add(json.dumps(ex[0]["params"], sort_keys=True))
+        else:
+            ok_execs.append(ex)
+    for p in sorted(bad_pre):
+        V.drift += 1
+        log("SPEC-DRIFT component=swiss_table the sequential pre-fill of %s did not land in the configured slots" % p)
+    execs = ok_execs
+    if replay:
+        replay_drift = []
     V.extra["executions"] = len(execs)
     V.extra["exec_status"] = status
 
@@ -306,20 +324,11 @@ def run(pid, tier, seed, replay=None):
     execs = kept
 
     results = {}
-    for name, tla, cfg, conv in (
-        ("L1", os.path.join(SPEC, "Swiss_Mon.tla"), os.path.join(SPEC, "mc", "Swiss_Mon.cfg"), sw.monitor_lines),
-        ("HB", os.path.join(SPEC, "lib", "HBMon.tla"), os.path.join(SPEC, "mc", "HBMon.cfg"), sw.hb_lines),
-        ("L2", os.path.join(SPEC, "Swiss_Trace.tla"), os.path.join(SPEC, "mc", "Swiss_Trace.cfg"), sw.normalise),
-    ):
-        lines = [conv(ex) for ex in execs]
-        acc, issues, st = sw.check_traces(tla, cfg, lines, pid + "_" + name, max_rounds=6)
-        results[name] = (acc, issues, st)
-        V.cov["transitions"] += st["states"]
-        lap("validate_" + name)
-        V.extra["trace_" + name] = {"accepted": acc, "issues": len(issues), "tlc_states": st["states"], "wall_s": round(st["wall"], 1), "unchecked": st["unchecked"]}
-        V.extra["trace_" + name]["issues_judged"] = min(len(issues), 8)
+    drift_params = set(replay_drift)
+
+    def judge(name, tla, cfg, conv, xs, issues, tag=""):
         for iss in issues[:8]:      # every one is re-executed to confirm it: a handful per layer is enough for the verdict
-            ex = execs[iss.exec_index]
+            ex = xs[iss.exec_index]
             key = exec_key(ex)
             if iss.kind == "rejected":
                 if name == "L2":
@@ -328,7 +337,7 @@ def run(pid, tier, seed, replay=None):
                     continue
                 raise vlib.Broken("%s monitor rejected a trace (monitors must accept every well-formed trace): %s" % (name, iss.detail))
             clause = iss.kind.split(":", 1)[1]
-            what = clause.lstrip("T") if clause.startswith("T") and clause[1:] in CLAUSES else clause
+            what = clause
             if name == "L1":
                 m = re.findall(r'bad = "(\w+)"', iss.detail)
                 what = m[-1] if m and m[-1] else clause
@@ -344,8 +353,43 @@ def run(pid, tier, seed, replay=None):
                 _, iss2, _ = sw.check_traces(tla, cfg, lines2, pid + "_re") if lines2 else (0, [], {})
                 if not iss2:
                     raise vlib.Broken("violation %s (%s layer, line %d) did not reproduce on re-execution of %s: %s" % (what, name, iss.line, json.dumps(key), iss.detail[:1500]))
-            rp = vlib.save_replay(pid, "%s_%s_%d.json" % (name, what, iss.exec_index), {"exec": key, "clause": what, "layer": name, "line": iss.line, "trace": ex[:400]})
+            rp = vlib.save_replay(pid, "%s%s_%s_%d.json" % (name, tag, what, iss.exec_index), {"exec": key, "clause": what, "layer": name, "line": iss.line, "trace": ex[:400]})
             V.violation("%s violated on an execution of the real code (%s layer) params=%s seed=%s" % (what, name, json.dumps(key["params"]), key["seed"]), rp)
+
+    LAYERS = (
+        ("L1", os.path.join(SPEC, "Swiss_Mon.tla"), os.path.join(SPEC, "mc", "Swiss_Mon.cfg"), sw.monitor_lines),
+        ("HB", os.path.join(SPEC, "lib", "HBMon.tla"), os.path.join(SPEC, "mc", "HBMon.cfg"), sw.hb_lines),
+        ("L2", os.path.join(SPEC, "Swiss_Trace.tla"), os.path.join(SPEC, "mc", "Swiss_Trace.cfg"), sw.normalise),
+    )
+    for name, tla, cfg, conv in LAYERS:
+        lines = [conv(ex) for ex in execs]
+        acc, issues, st = sw.check_traces(tla, cfg, lines, pid + "_" + name, max_rounds=6)
+        results[name] = (acc, issues, st)
+        V.cov["transitions"] += st["states"]
+        lap("validate_" + name)
+        V.extra["trace_" + name] = {"accepted": acc, "issues": len(issues), "tlc_states": st["states"], "wall_s": round(st["wall"], 1), "unchecked": st["unchecked"],
+                                    "issues_judged": min(len(issues), 8)}
+        if name == "L2":
+            for iss in issues:
+                if iss.kind == "rejected":
+                    p = execs[iss.exec_index][0]["params"]
+                    drift_params.add(",".join("%s=%s" % (k, v) for k, v in p.items()))
+        judge(name, tla, cfg, conv, execs, issues)
+
+    # ---- drift-guided intensification: a configuration on which the code no longer follows the L2 specification is where a
+    #      changed algorithm shows; it is explored much harder (random + preemption-bounded) and judged by the L1 monitor alone
+    if drift_params and not replay:
+        plist = sorted(drift_params)[:5]
+        ns = 48 if quick else 400
+        tdir = os.path.join(vlib.BUILD, "traces")
+        e5, s5 = record(plist, (seed * 1000 + 501, seed * 1000 + 501 + ns), "mix", os.path.join(tdir, pid + "_int"))
+        e6, s6 = record(plist, (1, 2), "pb", os.path.join(tdir, pid + "_intpb"), extra=["--pb-bound", "2", "--max-execs", "120" if quick else "1500"])
+        xs = [ex for ex in e5 + e6 if ex[-1].get("status") != "budget"]
+        name, tla, cfg, conv = LAYERS[0]
+        acc, issues, st = sw.check_traces(tla, cfg, [conv(ex) for ex in xs], pid + "_L1int", max_rounds=4)
+        V.extra["drift_guided_intensification"] = {"configurations": plist, "executions": len(xs), "accepted": acc, "issues": len(issues)}
+        judge(name, tla, cfg, conv, xs, issues, tag="int")
+        lap("intensify")
     V.cov["traces_validated_against_impl"] = results["L1"][0] + results["L2"][0] + results["HB"][0]
     for ex in execs[:2]:
         V.sample({"configuration": ex[0]["params"], "strategy": ex[0]["strategy"], "events": len(ex), "first_events": [e for e in ex[1:40] if e.get("t", 0) > 0 and e.get("loc") != "?"][:10]})
